@@ -10,6 +10,7 @@ from webauthn.helpers import (
     parse_attestation_object,
     parse_client_data_json,
     parse_backup_flags,
+    parse_cbor,
     parse_registration_credential_json,
 )
 from webauthn.helpers.cose import COSEAlgorithmIdentifier
@@ -208,7 +209,10 @@ def verify_registration_response(
             [field is not None for field in asdict(attestation_object.att_stmt).values()]
         )
 
-        if any_att_stmt_fields_set:
+        # ...including members this library does not know about
+        raw_att_stmt = parse_cbor(attestation_object_bytes).get("attStmt")
+
+        if any_att_stmt_fields_set or raw_att_stmt:
             raise InvalidRegistrationResponse(
                 "None attestation had unexpected attestation statement"
             )
